@@ -28,6 +28,7 @@ package memfs
 import (
 	"io/fs"
 	"os"
+	"strings"
 	"time"
 
 	"github.com/avfs/avfs"
@@ -800,36 +801,48 @@ func (vfs *MemFS) Rename(oldpath, newpath string) error {
 		}
 	}
 
+	_, oIsDir := oChild.(*dirNode)
+
 	if oPI.Path() == nPI.Path() {
+		if oIsDir && vfs.Clean(oldpath) == vfs.Clean(newpath) && vfs.OSType() != avfs.OsWindows {
+			// os.Rename refuses an existing directory as new name, unless it is the same directory under another name.
+			return &os.LinkError{Op: op, Old: oldpath, New: newpath, Err: vfs.err.FileExists}
+		}
+
 		return nil
 	}
 
-	switch oChild.(type) {
+	if _, nIsDir := nChild.(*dirNode); !nIsDir && oIsDir &&
+		strings.HasPrefix(nPI.Path(), oPI.Path()+string(vfs.PathSeparator())) {
+		// A directory can't be moved into itself.
+		return &os.LinkError{Op: op, Old: oldpath, New: newpath, Err: vfs.err.InvalidArgument}
+	}
+
+	switch nc := nChild.(type) {
+	case nil:
 	case *dirNode:
-		if !vfs.isNotExist(nErr) {
-			if vfs.OSType() == avfs.OsWindows {
-				nErr = avfs.ErrWinAccessDenied
-			}
-
-			return &os.LinkError{Op: op, Old: oldpath, New: newpath, Err: nErr}
+		err := vfs.err.FileExists
+		if vfs.OSType() == avfs.OsWindows {
+			err = avfs.ErrWinAccessDenied
 		}
 
-	case *fileNode:
-		if nChild == nil {
-			break
-		}
-
-		switch nc := nChild.(type) {
-		case *fileNode:
-			nc.delete()
-		default:
-			err := error(avfs.ErrFileExists)
+		return &os.LinkError{Op: op, Old: oldpath, New: newpath, Err: err}
+	default:
+		if oIsDir {
+			err := vfs.err.NotADirectory
 			if vfs.OSType() == avfs.OsWindows {
 				err = avfs.ErrWinAccessDenied
 			}
 
 			return &os.LinkError{Op: op, Old: oldpath, New: newpath, Err: err}
 		}
+
+		if nChild == oChild {
+			// oldpath and newpath are hard links to the same file : nothing to do.
+			return nil
+		}
+
+		nc.delete()
 	}
 
 	nParent.addChild(nPI.Part(), oChild)
